@@ -29,6 +29,7 @@ pub struct ExecResult<T> {
 thread_local! {
     static LAST_PANIC: RefCell<Option<String>> = const { RefCell::new(None) };
     static LAST_STATS: RefCell<fast_stm::verif::Stats> = RefCell::new(fast_stm::verif::Stats::default());
+    static STATS_TAKEN: std::cell::Cell<bool> = const { std::cell::Cell::new(false) };
 }
 
 /// Install the quiet panic hook. shuttle installs its own (noisy) hook once, at the first run;
@@ -49,6 +50,7 @@ pub fn init() {
 pub fn snapshot_stats() {
     let s = fast_stm::verif::stats();
     LAST_STATS.with(|l| *l.borrow_mut() = s);
+    STATS_TAKEN.with(|t| t.set(true));
 }
 
 pub fn execute<T, F>(spec: SchedSpec, max_steps: usize, f: F) -> ExecResult<T>
@@ -67,8 +69,11 @@ where
     let r = panic::catch_unwind(AssertUnwindSafe(|| {
         Runner::new(sched, cfg).run(move || {
             fast_stm::verif::reset_execution();
+            STATS_TAKEN.with(|t| t.set(false));
             let v = f();
-            snapshot_stats();
+            if !STATS_TAKEN.with(|t| t.get()) {
+                snapshot_stats();
+            }
             *slot2.lock().unwrap() = Some(v);
         });
     }));
